@@ -58,7 +58,7 @@ def tyParamL : Ty → List Bytes
   | .callable h ts => [if h then tupKeyOf ts else undefKey, undefKey, undefKey]
   | .runtime rt n p =>
       if (rt.isEmpty ∧ n.isEmpty) ∧ p.isNone then []
-      else (strMark ++ rt) :: ((if n.isEmpty then [] else [strMark ++ n]) ++ (match p with | none => [] | some p => [rxTyKey p]))
+      else (strMark ++ rt) :: ((if n.isEmpty ∧ p.isNone then [] else [strMark ++ n]) ++ (match p with | none => [] | some p => [rxTyKey p]))
 
 theorem flat_append (a b : List Bytes) : flat (a ++ b) = flat a ++ flat b := by
   induction a with
